@@ -535,6 +535,9 @@ class Sym:
                 # field of an aggregate we know: project
                 if e[0] == "agg" and e[1] in ("tuple",) and el["n"].isdigit() and int(el["n"]) < len(e[3]):
                     e = e[3][int(el["n"])]
+                elif e[0] == "bin" and e[1].endswith("WithOverflow") and el["n"] == "0":
+                    # (a +checked b).0 is the value of a + b: same expression in debug and release builds
+                    e = ("bin", e[1][:-len("WithOverflow")], e[2], e[3])
                 elif e[0] == "field":
                     e = e + (el["n"],)
                 elif e[0] in ("arg", "var") or e[0] == "deref" and e[1][0] in ("arg", "var"):
